@@ -132,7 +132,9 @@ def run_batch(prop, tier, base_seed, budget_s=None, nruns=None):  # pylint: disa
         nruns = info['quick_runs'] if quick else info.get('thorough_max_runs', 10**9)
     if budget_s is None:
         budget_s = info.get('quick_budget_s', 150) if quick else float(os.environ.get('VERIF_BUDGET_S', info.get('thorough_budget_s', 720)))
-    per_run = info.get('run_limit_s', 120) * (1 if quick else 3)
+    # generous: a run normally takes 10 ms - 5 s; the limit only turns a genuine hang into a harness error, also when
+    # the machine is heavily loaded by other jobs
+    per_run = info.get('run_limit_s', 400) * (1 if quick else 3)
     records = {}
     errors = []
     lock = threading.Lock()
